@@ -306,4 +306,271 @@ theorem tie_structRequiredShape :
        "if len(opts.OptionalDep) > 0 && opts.OptionalDep[0] == notSymbol {", "return", "}", "}", "}", "}", "return"] := by
   rfl
 
+/-! ### round 4: the decision-making conditions on the property's path, translated from the Go expressions into Lean
+terms (`extract/c08.go`, `c08Sem`) and proven equal to what the model computes, for all arguments -/
+
+/-- `ParseHeaders`: "hand the value over as a string" is decided exactly as the model's `headerScalar` does -/
+theorem tie_parseHeaders_sem (n : Int) : parseHeadersScalar n = headerScalar n := rfl
+
+/-- the scalar branch reads `v[0]`, the other branch hands over the slice itself -/
+theorem tie_parseHeaders_branches :
+    parseHeadersThenIdx = [0] ∧ parseHeadersElseIdx = [] ∧ parseHeadersThen = ["m[k] = v[0]"]
+      ∧ parseHeadersElse = ["m[k] = v"] := by decide
+
+/-- every constant index into `v` in a branch of the extracted decision lies inside `v` for every length that takes that
+branch (the semantic reason why `ParseHeaders` cannot panic on nil / empty / single / multiple values) -/
+theorem tie_parseHeaders_indexes_in_range (n : Nat) :
+    (parseHeadersScalar n = true → ∀ i ∈ parseHeadersThenIdx, 0 ≤ i ∧ i < (n : Int))
+    ∧ (parseHeadersScalar n = false → ∀ i ∈ parseHeadersElseIdx, 0 ≤ i ∧ i < (n : Int)) := by
+  simp [parseHeadersScalar, parseHeadersThenIdx, parseHeadersElseIdx]
+  omega
+
+/-- the loop body of the code (extracted decision and index) is the model's `headerEntry` -/
+theorem tie_parseHeaders_entry (vs : HVals) :
+    headerEntryG parseHeadersScalar (parseHeadersThenIdx.headD (-1)) vs = headerEntry vs := rfl
+
+/-- `validateNumberRange`: NaN guard, then the translated left and right tests = `rangeRejects` of the repaired code, for
+every range and every number (comparison operators, their operands and the inclusive flags are all pinned) -/
+theorem tie_rangeRejects_sem (c : Cfg) (hc : c.pinned = false) (r : Range) (x : Num) :
+    rangeRejects c r x =
+      (decide (x = .nan) || rangeLeftCond numLt numLe numGt numGe r.leftInc x r.left
+        || rangeRightCond numLt numLe numGt numGe r.rightInc x r.right) := by
+  simp [rangeRejects, rangeLeftCond, rangeRightCond, hc, Bool.or_assoc]
+
+/-- `parseNumberRange`: `left > right` is the model's `Dec.lt r l`; equal bounds are refused unless both ends are closed -/
+theorem tie_parseNumberRange_sem (l r : Dec) (li ri : Bool) :
+    rangeBoundsSwapped (fun a b => Dec.lt b a) l r = Dec.lt r l
+    ∧ (rangeBoundsEqual Dec.eqv l r && rangeEqualNeedsClosed li ri)
+        = decide (Dec.eqv l r = true ∧ ((!li) = true ∨ (!ri) = true)) := by
+  refine ⟨rfl, ?_⟩
+  cases li <;> cases ri <;> cases h : Dec.eqv l r <;> simp [rangeBoundsEqual, rangeEqualNeedsClosed, h]
+
+/-- `parseNumberRange`: exactly two `:`-separated fields, not both empty, a bound is parsed iff its text is not empty
+(`parseBound`: the empty text takes the default ∓MaxFloat64) -/
+theorem tie_parseNumberRange_fields (fields : List Str) (f0 f1 : Str) :
+    (rangeFieldCount fields.length = false ↔ ∃ a b, fields = [a, b])
+    ∧ rangeBothOmitted f0.length f1.length = decide (f0 = [] ∧ f1 = [])
+    ∧ rangeLeftGiven f0.length = !decide (f0 = [])
+    ∧ rangeRightGiven f1.length = !decide (f1 = []) := by
+  refine ⟨?_, ?_, ?_, ?_⟩
+  · simp only [rangeFieldCount]
+    constructor
+    · intro h
+      match fields, h with
+      | [a, b], _ => exact ⟨a, b, rfl⟩
+      | [], h => simp at h
+      | [_], h => simp at h
+      | _ :: _ :: _ :: _, h => simp at h; omega
+    · rintro ⟨a, b, rfl⟩; simp
+  · cases f0 <;> cases f1 <;> simp [rangeBothOmitted] <;> omega
+  · cases f0 <;> simp [rangeLeftGiven] <;> omega
+  · cases f1 <;> simp [rangeRightGiven] <;> omega
+
+/-- `toOptionsWithContext`: `optional=!dep` is an error when both or neither are supplied, `optional=dep` when exactly one
+is (`effOptional`); the declared option set is returned unchanged iff the resolved `optional` equals the declared one -/
+theorem tie_dependency_sem (baseOn selfOn : Bool) :
+    depNotViolated baseOn selfOn = decide (baseOn = selfOn)
+    ∧ depViolated baseOn selfOn = decide (baseOn ≠ selfOn)
+    ∧ optionalUnchanged baseOn selfOn = decide (baseOn = selfOn) := by
+  cases baseOn <;> cases selfOn <;> decide
+
+/-- the model's dependency resolution, written with the translated conditions of the code -/
+theorem tie_effOptional_sem (o : Opts) (key : Str) (m : Obj) (c : Char) (dep : Str) (ho : o.optional = true)
+    (hd : o.optionalDep = c :: dep) :
+    effOptional o key m =
+      (if c = '!' then
+         (if dep = [] then .error .dep
+          else if depNotViolated (hasKey dep m) (hasKey key m) then .error .dep else .ok (hasKey dep m))
+       else if depViolated (hasKey (c :: dep) m) (hasKey key m) then .error .dep else .ok (!hasKey (c :: dep) m)) := by
+  simp only [effOptional, ho, hd, depNotViolated, depViolated, if_true]
+  by_cases hc : c = '!'
+  · simp only [hc, if_true]
+    by_cases hde : dep = []
+    · simp [hde]
+    · simp only [hde, if_false]
+      cases hasKey dep m <;> cases hasKey key m <;> simp
+  · simp only [hc, if_false]
+    cases hasKey (c :: dep) m <;> cases hasKey key m <;> simp
+
+/-- the not symbol test on the first byte of the dependency -/
+theorem tie_depIsNot_sem (c : Char) : depIsNot c.toNat = decide (c = '!') := by
+  simp only [depIsNot]
+  by_cases h : c = '!'
+  · subst h; decide
+  · have : ¬ ((c.toNat : Int) = 33) := by
+      intro h'
+      apply h
+      have h2 : c.toNat = '!'.toNat := by
+        have : '!'.toNat = 33 := by decide
+        omega
+      exact Char.toNat_inj.mp h2
+    simp [this, h]
+
+/-- `implicitValueRequiredStruct`: a field is required when it is neither optional nor defaulted, or when it is `optional=!dep`
+(`structRequired`) -/
+theorem tie_structRequired_sem (o : Opts) :
+    requiredField o.optional o.default.length = (!o.optional && decide (o.default = []))
+    ∧ requiredNotDep o.optionalDep.length ((o.optionalDep.head?.map Char.toNat).getD 0)
+        = decide (o.optionalDep.head? = some '!') := by
+  constructor
+  · cases o.default <;> cases o.optional <;> simp [requiredField] <;> omega
+  · cases hd : o.optionalDep with
+    | nil => simp [requiredNotDep]
+    | cons c rest =>
+      have h1 := tie_depIsNot_sem c
+      by_cases hc : c = '!'
+      · subst hc
+        simp [requiredNotDep]
+      · have h3 : ¬ ((c.toNat : Int) = 33) := by simpa [depIsNot, hc] using h1
+        simp [requiredNotDep, h3, hc]
+
+/-- `GetFormValues`: an empty value is skipped, a name is handed over iff a value is left (`formParams`) -/
+theorem tie_getFormValues_sem (v : Str) (filtered : List Str) :
+    formSkipValue v.length = v.isEmpty ∧ formKeepName filtered.length = !filtered.isEmpty := by
+  constructor
+  · cases v <;> simp [formSkipValue] <;> omega
+  · cases filtered <;> simp [formKeepName] <;> omega
+
+/-- `fillSlice`: the empty input gives an empty slice (`sliceResult`); `processNamedField`: the WithFromArray block is
+entered for a non-nil value only (`fieldCore`: the null test comes after `fromArrayValue`, which leaves null alone) -/
+theorem tie_fillSlice_fromArray_sem (l : List J) (c : Cfg) (isSlice : Bool) :
+    fillSliceEmpty l.length = l.isEmpty
+    ∧ (fromArrayBlock c.fromArray true = false)
+    ∧ fromArrayValue c isSlice .null = .null := by
+  refine ⟨?_, ?_, ?_⟩
+  · cases l <;> simp [fillSliceEmpty] <;> omega
+  · simp [fromArrayBlock]
+  · simp [fromArrayValue]
+
+/-- `processNamedField` (`fieldCore`): options resolved against the input first, the ignore key, an `env=` value, the
+canonical key, the valuer by `inherit`, the lookup; absent ⇒ `processNamedFieldWithoutValue`; under WithFromArray the first
+element of a non-empty list for a non-slice field; then `processNamedFieldWithValue` -/
+theorem tie_namedFieldShape :
+    namedFieldShape =
+      ["if !field.IsExported() {", "return", "}", "call u.parseOptionsWithContext", "if err != nil {", "return",
+       "}", "if key == ignoreKey {", "return", "}", "call join", "if opts != nil && len(opts.EnvVar) > 0 {",
+       "call proc.Env", "if len(envVal) > 0 {", "call u.processFieldWithEnvValue", "return", "}", "}",
+       "if u.opts.canonicalKey != nil {", "call u.opts.canonicalKey", "}", "call createValuer", "call getValue",
+       "if u.opts.fillDefault {", "if !value.IsZero() {", "return", "}", "call u.processNamedFieldWithoutValue",
+       "return", "}", "else{", "if !hasValue {", "call u.processNamedFieldWithoutValue", "return", "}", "}",
+       "if u.opts.fromArray && mapValue != nil {", "call field.Type.Kind",
+       "if fieldKind != reflect.Slice && fieldKind != reflect.Array {",
+       "if valueKind == reflect.Slice || valueKind == reflect.Array {", "if val.Len() > 0 {", "call val.Index",
+       "call val.Index(0).Interface", "}", "}", "}", "}", "call u.processNamedFieldWithValue", "return"] := by decide
+
+/-- `structValueRequired`: the cached answer is keyed by the tag key AND the type (a8b007f; keyed by the type alone the `json`
+unmarshaler was handed the `form` unmarshaler's answer: Props.structRequiredCache_witness) and computed for the caller's own
+tag key — the model has no cache: `absentRequired` asks `structRequired` about the fields as its own key reads them -/
+theorem tie_structRequiredCache :
+    structRequiredCacheUse =
+      ["cacheKey := requiredCacheKey{tag: tag, tp: tp}", "val, ok := structRequiredCache[cacheKey]",
+       "required, err := implicitValueRequiredStruct(tag, tp)", "structRequiredCache[cacheKey] = requiredCacheValue{…}"] := by
+  decide
+
+/-! ### round 4: front ends, glue between the packages, valuers -/
+
+/-- core/mapping/valuer.go: `simpleValuer` looks at the current node only; `Parent()` wraps the parent in a `recursiveValuer`;
+`recursiveValuer.Value`: current node, else the parent chain; two objects are merged by adding the parent's entries under the keys the
+child does not bind (`if _, ok := vm[k]; !ok { vm[k] = v }`) — `Model.simpleValue`, `Model.recValueM`, `Model.mergeMissing`;
+`createValuer` picks the recursive valuer exactly for `inherit` -/
+theorem tie_valuer :
+    simpleValuerValueShape =
+      ["call sv.current.Value", "return"] ∧
+    simpleValuerParentShape =
+      ["if sv.parent == nil {", "return", "}", "call sv.parent.Parent", "return"] ∧
+    recursiveValuerValueShape =
+      ["call rv.current.Value", "if !ok {", "call rv.Parent", "if parent != nil {", "call parent.Value", "return",
+      "}", "return", "}", "if !ok {", "return", "}", "call rv.Parent", "if parent == nil {", "return", "}",
+      "call parent.Value", "if !ok {", "return", "}", "if !ok {", "return", "}", "range pm {", "if !ok {",
+      "mapset vm", "}", "}", "return"] ∧
+    recursiveValuerParentShape =
+      ["if rv.parent == nil {", "return", "}", "call rv.parent.Parent", "return"] ∧
+    mapValuerValueShape =
+      ["return"] ∧
+    createValuerShape =
+      ["if opts.inherit() {", "call v.Parent", "return", "}", "call v.Parent", "return"] := by
+  refine ⟨?_, ?_, ?_, ?_, ?_, ?_⟩ <;> decide
+
+/-- `UnmarshalYamlBytes` / `UnmarshalTomlBytes` (and the Reader forms): convert with `encoding.YamlToJson` / `TomlToJson`, an error of the
+conversion is returned, else `UnmarshalJsonBytes(b, v, opts...)` — the content, the target and *the options* are forwarded -/
+theorem tie_yamlTomlForwarding :
+    unmarshalYamlBytesCalls =
+      ["call encoding.YamlToJson(content)", "return err", "return UnmarshalJsonBytes(b, v, opts...)"] ∧
+    unmarshalTomlBytesCalls =
+      ["call encoding.TomlToJson(content)", "return err", "return UnmarshalJsonBytes(b, v, opts...)"] ∧
+    unmarshalYamlReaderCalls =
+      ["call io.ReadAll(reader)", "return err", "return UnmarshalYamlBytes(b, v, opts...)"] ∧
+    unmarshalTomlReaderCalls =
+      ["call io.ReadAll(r)", "return err", "return UnmarshalTomlBytes(b, v, opts...)"] := by
+  refine ⟨?_, ?_, ?_, ?_⟩ <;> decide
+
+/-- core/mapping/jsonunmarshaler.go: options ⇒ a fresh unmarshaler under the `json` key with them, none ⇒ the shared one; the decoded
+document and the target are handed to `Unmarshal` -/
+theorem tie_jsonForwarding :
+    unmarshalJsonBytesCalls =
+      ["return unmarshalJsonBytes(content, v, getJsonUnmarshaler(opts...))"] ∧
+    unmarshalJsonMapCalls =
+      ["return getJsonUnmarshaler(opts...).Unmarshal(m, v)"] ∧
+    getJsonUnmarshalerCalls =
+      ["call len(opts)", "return NewUnmarshaler(jsonTagKey, opts...)", "return jsonUnmarshaler"] ∧
+    unmarshalJsonBytesInnerCalls =
+      ["call jsonx.Unmarshal(content, &m)", "return err", "return unmarshaler.Unmarshal(m, v)"] := by
+  refine ⟨?_, ?_, ?_, ?_⟩ <;> decide
+
+/-- core/conf: `LoadFromJsonBytes` decodes, lowers the field keys, unmarshals with `WithCanonicalKeyFunc(toLowerCase)` (the model's
+`Cfg.lower`, `toLowerCase = strings.ToLower`), an error is returned; YAML / TOML convert first and forward to it; the file loaders by extension -/
+theorem tie_confForwarding :
+    confLoadFromJsonBytesCalls =
+      ["call buildFieldsInfo(reflect.TypeOf(v), \"\")", "call reflect.TypeOf(v)", "return err",
+      "call jsonx.Unmarshal(content, &m)", "return err", "call toLowerCaseKeyMap(m, info)",
+      "call mapping.UnmarshalJsonMap(lowerCaseKeyMap, v, mapping.WithCanonicalKeyFunc(toLowerCase))",
+      "call mapping.WithCanonicalKeyFunc(toLowerCase)", "return err", "return validate(v)"] ∧
+    confLoadFromYamlBytesCalls =
+      ["call encoding.YamlToJson(content)", "return err", "return LoadFromJsonBytes(b, v)"] ∧
+    confLoadFromTomlBytesCalls =
+      ["call encoding.TomlToJson(content)", "return err", "return LoadFromJsonBytes(b, v)"] ∧
+    confToLowerCaseCalls =
+      ["return strings.ToLower(s)"] ∧
+    confLoaders =
+      ["\".json\": LoadFromJsonBytes", "\".toml\": LoadFromTomlBytes", "\".yaml\": LoadFromYamlBytes",
+      "\".yml\": LoadFromYamlBytes"] := by
+  refine ⟨?_, ?_, ?_, ?_, ?_⟩ <;> decide
+
+/-- `conf.Load`: read the file, pick the loader by the lower-cased extension, run it (after `os.ExpandEnv` under `UseEnv`), its error is returned -/
+theorem tie_confLoadShape :
+    confLoadShape =
+      ["call os.ReadFile", "if err != nil {", "return", "}", "call path.Ext", "if !ok {", "return", "}",
+      "range opts {", "call o", "}", "if opt.env {", "call os.ExpandEnv", "call ?", "call loader", "return", "}",
+      "call loader", "if err != nil {", "return", "}", "call validate", "return"] := by
+  decide
+
+/-- `toLowerCaseKeyMap`: keys in sorted order; an exact field key, else the lower-cased key if it names a field, else (map field / nested
+object / anything) the key as it is — every binding is kept (`mapset res` on each path): the harness observes the result and the driver's
+`docEquiv` monitor checks that it holds the supplied values under keys equal up to case -/
+theorem tie_confLowerKeyMapShape :
+    confLowerKeyMapShape =
+      ["range m {", "}", "call sort.Strings", "range keys {", "if ok {", "call toLowerCaseInterface", "mapset res",
+      "continue", "}", "call toLowerCase", "if ok {", "call toLowerCaseInterface", "mapset res", "}", "else{",
+      "if info.mapField != nil {", "call toLowerCaseInterface", "mapset res", "}", "else{", "if ok {",
+      "call toLowerCaseKeyMap", "mapset res", "}", "else{", "mapset res", "}", "}", "}", "}", "return"] := by
+  decide
+
+/-- rest/httpx: `ParseHeaders` forwards `r.Header` to `encoding.ParseHeaders`; `ParseForm` = `GetFormValues` then the form unmarshaler;
+`ParsePath` = the path variables through the path unmarshaler; `ParseJsonBody` = the body through `UnmarshalJsonReader` when there is a
+JSON body, else `UnmarshalJsonMap(nil, v)` (`Model.httpParsePath/Form/Headers/JsonBody`) -/
+theorem tie_httpParseParts :
+    httpParseHeadersCalls =
+      ["return encoding.ParseHeaders(r.Header, v)"] ∧
+    httpParseFormCalls =
+      ["call GetFormValues(r)", "return err", "return formUnmarshaler.Unmarshal(params, v)"] ∧
+    httpParsePathCalls =
+      ["call pathvar.Vars(r)", "call make(map[string]any, len(vars))", "call len(vars)",
+      "return pathUnmarshaler.Unmarshal(m, v)"] ∧
+    httpParseJsonBodyCalls =
+      ["call withJsonBody(r)", "call io.LimitReader(r.Body, maxBodyLen)",
+      "return mapping.UnmarshalJsonReader(reader, v)", "return mapping.UnmarshalJsonMap(nil, v)"] ∧
+    httpWithJsonBodyCalls =
+      ["return r.ContentLength > 0 && strings.Contains(r.Header.Get(header.ContentType), header.ApplicationJson)"] := by
+  refine ⟨?_, ?_, ?_, ?_, ?_⟩ <;> decide
+
 end GoZero.C08.Tie
